@@ -783,23 +783,27 @@ class BptkServer(Flask):
         
         instance = self._instance_manager.get_instance(instance_uuid)
 
-        if(instance.is_locked()):
+        # a single step also holds the session lock: two concurrent steps must not read the same session clock
+        if(not instance.try_lock()):
             resp = make_response('{"error": "instace is locked"}', 500)
             resp.headers['Content-Type'] = 'application/json'
             resp.headers['Access-Control-Allow-Origin'] = '*'
             return resp
 
-        if not request.is_json:
-            result = instance.run_step()
-        else:
-            content = request.get_json()
-            if "settings" in content:
-                result = instance.run_step(settings=content["settings"], flat="flatResults" in content and content["flatResults"] == True)
+        try:
+            if not request.is_json:
+                result = instance.run_step()
             else:
-                resp = make_response('{"error": "expecting settings to be set"}', 500)
-                resp.headers['Content-Type'] = 'application/json'
-                resp.headers['Access-Control-Allow-Origin'] = '*'
-                return resp
+                content = request.get_json()
+                if "settings" in content:
+                    result = instance.run_step(settings=content["settings"], flat="flatResults" in content and content["flatResults"] == True)
+                else:
+                    resp = make_response('{"error": "expecting settings to be set"}', 500)
+                    resp.headers['Content-Type'] = 'application/json'
+                    resp.headers['Access-Control-Allow-Origin'] = '*'
+                    return resp
+        finally:
+            instance.unlock()
 
         if result is not None:
             resp = make_response(jsonpickle.dumps(result), 200)
@@ -830,6 +834,7 @@ class BptkServer(Flask):
             return resp
         
         result = []
+        locked = False
         try:
             instance = self._instance_manager.get_instance(instance_uuid)
             if not request.is_json:
@@ -838,18 +843,18 @@ class BptkServer(Flask):
                 resp.headers['Access-Control-Allow-Origin'] = '*'
                 return resp
 
-            if(instance.is_locked()):
-                resp = make_response('{"error": "instace is locked"}', 500)
-                resp.headers['Content-Type'] = 'application/json'
-                resp.headers['Access-Control-Allow-Origin'] = '*'
-                return resp
             content = request.get_json()
             if "numberSteps" in content:
                 if "settings" in content:
-                    instance.lock()
+                    # test and take the lock in one atomic operation
+                    locked = instance.try_lock()
+                    if(not locked):
+                        resp = make_response('{"error": "instace is locked"}', 500)
+                        resp.headers['Content-Type'] = 'application/json'
+                        resp.headers['Access-Control-Allow-Origin'] = '*'
+                        return resp
                     for i in range(0,content["numberSteps"]):
                         result.append(instance.run_step(settings=content["settings"], flat="flatResults" in content and content["flatResults"] == True))
-                    instance.unlock()
                 else:
                     resp = make_response('{"error": "expecting settings to be set"}', 500)
                     resp.headers['Content-Type'] = 'application/json'
@@ -861,7 +866,11 @@ class BptkServer(Flask):
                 resp.headers['Access-Control-Allow-Origin'] = '*'
                 return resp
         except:
-            instance.unlock()
+            pass
+        finally:
+            # only the request that took the lock releases it
+            if locked:
+                instance.unlock()
         if result is not None:
             resp = make_response(jsonpickle.dumps(result), 200)
         else:
@@ -903,15 +912,22 @@ class BptkServer(Flask):
                 resp.headers['Access-Control-Allow-Origin'] = '*'
                 return resp
 
-        if(instance.is_locked()):
+        # test and take the lock in one atomic operation; the streamer releases it when it ends
+        if(not instance.try_lock()):
             resp = make_response('{"error": "instace is locked"}', 500)
             resp.headers['Content-Type'] = 'application/json'
             resp.headers['Access-Control-Allow-Origin'] = '*'
             return resp
 
+        released = []
+        def release():
+            # completion, an error in a step and a client that went away all release the lock - exactly once
+            if not released:
+                released.append(True)
+                instance.unlock()
+
         def streamer():
             try:
-                instance.lock()
                 yield "["
                 first = True
                 while instance.progress() <= 1.0:
@@ -929,12 +945,15 @@ class BptkServer(Flask):
                     else:
                         yield '{"error": "no data was returned from run_step"}'
                 yield "]"
-            except:
-                instance.unlock()
+            except Exception:
+                pass
+            finally:
+                release()
             if self._external_state_adapter != None:
                 self._external_state_adapter.save_instance(self._instance_manager._get_instance_state(instance_uuid))
 
         resp = Response(streamer())
+        resp.call_on_close(release)  # also when the response is closed before the stream was started
         resp.headers['Content-Type'] = 'application/json'
         resp.headers['Access-Control-Allow-Origin'] = '*'
         return resp
